@@ -25,8 +25,9 @@ Definition osc_h256 : list Z :=
    1779033703; 3144134277; 1013904242; 2773480762; 1359893119; 2600822924;
    528734635; 1541459225 ].
 
-Definition osc_w32 (x : Z) : Z := x mod 4294967296.
-Definition osc_add32 (a b : Z) : Z := (a + b) mod 4294967296.
+(* reduction modulo 2^32 (by masking: for x >= 0, x mod 2^32 = x land (2^32-1)) *)
+Definition osc_w32 (x : Z) : Z := Z.land x 4294967295.
+Definition osc_add32 (a b : Z) : Z := Z.land (a + b) 4294967295.
 Definition osc_rotr (n x : Z) : Z := Z.lor (Z.shiftr x n) (osc_w32 (Z.shiftl x (32 - n))).
 Definition osc_not32 (x : Z) : Z := 4294967295 - x.
 
